@@ -25,6 +25,9 @@ CHECKS = {
  "C10": dict(tech="TLA+ L1 language machine: scope model (known frames, ambiguity, arity) in Prql.tla; every ill-formed behaviour of PrqlMC replayed; acceptance of an ill-formed program rejected by TLC (PrqlTrace)",
     text="every program the bounded model marks ill-formed (reference to a dropped column, ambiguous bare name after join, arity mismatch) must make prqlc::compile return Err; every well-formed one must compile",
     ref="DESIGN.md section 4 C10"),
+ "C14": dict(tech="TLA+ commuting diagram parse/format/compile (FmtLaw.tla) validated by TLC on recorded API calls (FmtTrace); expression sources are the trees of the model-checked precedence specification (Expr.tla / ExprMC) in minimal and full rendering",
+    text="for every parseable source of the generators (every operator adjacency from ExprMC, literal and identifier spellings in several positions, named arguments, functions, modules, long lines, repository queries, book snippets, generated programs): parse(format(parse(src))) is the same tree modulo positions/comments, formatting the output again returns it unchanged, and source and formatted text compile to the same SQL or error",
+    ref="DESIGN.md section 4 C14", note="trusted: TLC; pv's tree normalisation (span and doc_comment fields dropped) and artefact interning; self-tested by corrupting recorded ids"),
  "C15": dict(tech="TLA+ commuting-diagram model of the staged API (Stages.tla); all paths source->SQL|error with bounded JSON round trips enumerated by TLC (StagesMC), walked through the real API and validated by TLC (StagesTrace)",
     text="every path of the API graph (parse, json::from_pl/to_pl, pl_to_rq, json::from_rq/to_rq, rq_to_sql, compile; each JSON loop 0..2 times) is walked for every source x configuration; the diagram must commute at every node (value equality of trees, byte equality of JSON and SQL, same error)",
     ref="DESIGN.md section 4 C15", note="trusted: TLC; pv's artefact interning (PartialEq of ModuleDef / RelationalQuery, byte equality of strings); errors compared by code, reason, span, hints"),
